@@ -100,6 +100,11 @@ type Exec struct {
 	ghost       map[string]Value
 	negOf       map[int]*Term
 	dmCache     map[string][2]*Term
+	defOf       map[int]*Term // auxiliary constant -> its definitional equation
+	defAsserted map[int]bool
+	feltQ       map[string]*big.Int
+	byteProv    map[int]byteProv
+	lenientFn   *ssa.Function // top-level init function executed leniently (failing instructions are skipped)
 	folded      int
 	foldedIDs   []string
 }
@@ -111,7 +116,7 @@ func NewExec(prog *ssa.Program, cfg *HarnessCfg) *Exec {
 		initDone: map[*ssa.Package]bool{}, initRunning: map[*ssa.Package]bool{},
 		notes: map[string]int{}, loopCache: map[*ssa.Function]*loopForest{},
 		funcsSeen: map[string]bool{}, errObjs: map[string]*Object{}, typeObjs: map[string]*Object{},
-		ufAxiomDone: map[string]bool{}, strIntern: map[string]int{}, ghost: map[string]Value{}, negOf: map[int]*Term{}, dmCache: map[string][2]*Term{}}
+		ufAxiomDone: map[string]bool{}, strIntern: map[string]int{}, ghost: map[string]Value{}, negOf: map[int]*Term{}, dmCache: map[string][2]*Term{}, defOf: map[int]*Term{}, defAsserted: map[int]bool{}, feltQ: map[string]*big.Int{}, byteProv: map[int]byteProv{}}
 }
 
 func (ex *Exec) note(s string) { ex.notes[s]++ }
@@ -122,8 +127,45 @@ func (ex *Exec) assume(t *Term) {
 	}
 	ex.assumptions = append(ex.assumptions, t)
 	if ex.solver != nil {
+		for _, d := range ex.defClosure([]*Term{t}) {
+			ex.defAsserted[d.id] = true
+			ex.solver.Assert(d)
+		}
 		ex.solver.Assert(t)
 	}
+}
+
+// defClosure returns the definitional equations (of divmod auxiliaries) that the given terms
+// depend on, transitively, and that are not yet permanently asserted.
+func (ex *Exec) defClosure(roots []*Term) []*Term {
+	seen := map[int]bool{}
+	var out []*Term
+	stack := append([]*Term{}, roots...)
+	for len(stack) > 0 {
+		t := stack[len(stack)-1]
+		stack = stack[:len(stack)-1]
+		if seen[t.id] {
+			continue
+		}
+		seen[t.id] = true
+		if t.op == "var" {
+			if d, ok := ex.defOf[t.id]; ok && !ex.defAsserted[d.id] && !seen[-d.id] {
+				seen[-d.id] = true
+				out = append(out, d)
+				stack = append(stack, d)
+			}
+			continue
+		}
+		stack = append(stack, t.args...)
+	}
+	return out
+}
+
+// check decides satisfiability of assumptions ∧ conds, adding exactly the auxiliary definitions
+// the query depends on.
+func (ex *Exec) check(conds []*Term, want []*Term) CheckResult {
+	defs := ex.defClosure(conds)
+	return ex.solver.Check(append(append([]*Term{}, conds...), defs...), want)
 }
 
 func (ex *Exec) pos() string {
@@ -338,7 +380,12 @@ func (ex *Exec) callFunction(st *PState, fn *ssa.Function, args []Value, binding
 	defer func() { ex.depth-- }()
 	ex.funcsSeen[fn.String()] = true
 	saveFn, saveInstr := ex.curFn, ex.curInstr
-	defer func() { ex.curFn, ex.curInstr = saveFn, saveInstr }()
+	completed := false
+	defer func() {
+		if completed { // keep the failing position when unwinding with an error
+			ex.curFn, ex.curInstr = saveFn, saveInstr
+		}
+	}()
 	ex.curFn = fn
 
 	act := &activation{fn: fn, pending: map[int][]incoming{}, entryG: st.g, loops: ex.loopsOf(fn)}
@@ -352,6 +399,7 @@ func (ex *Exec) callFunction(st *PState, fn *ssa.Function, args []Value, binding
 	entry := &PState{g: st.g, heap: st.heap, env: env}
 	act.pending[0] = []incoming{{st: entry}}
 	ex.execItems(act, act.loops.items)
+	completed = true
 	// merge returns
 	if len(act.rets) == 0 {
 		st.g = ex.ts.Bool(false)
@@ -418,7 +466,7 @@ func (ex *Exec) execLoop(act *activation, l *loopInfo) {
 					continue
 				}
 				if i.st.g != entryG && (ex.cfg.Feasible || iter > bound) && ex.solver != nil {
-					r := ex.solver.Check([]*Term{i.st.g}, nil)
+					r := ex.check([]*Term{i.st.g}, nil)
 					if r.Status == "unsat" {
 						continue
 					}
@@ -577,6 +625,17 @@ func (ex *Exec) execBlock(act *activation, b *ssa.BasicBlock, st *PState) {
 		if st.g.IsFalse() {
 			return
 		}
+		if ex.lenientFn == act.fn {
+			if _, isCtl := instr.(*ssa.If); !isCtl {
+				if _, isJ := instr.(*ssa.Jump); !isJ {
+					if _, isR := instr.(*ssa.Return); !isR {
+						if ex.lenientStep(act, st, instr, setEnv) {
+							continue
+						}
+					}
+				}
+			}
+		}
 		switch in := instr.(type) {
 		case *ssa.Phi:
 			continue // handled in mergeIncoming
@@ -590,10 +649,10 @@ func (ex *Exec) execBlock(act *activation, b *ssa.BasicBlock, st *PState) {
 				t := &PState{g: ex.ts.And(st.g, c), heap: st.heap, env: st.env}
 				f := &PState{g: ex.ts.And(st.g, ex.ts.Not(c)), heap: st.heap, env: st.env}
 				if ex.cfg.Feasible && ex.solver != nil {
-					if r := ex.solver.Check([]*Term{t.g}, nil); r.Status == "unsat" {
+					if r := ex.check([]*Term{t.g}, nil); r.Status == "unsat" {
 						t.g = ex.ts.Bool(false)
 						f.g = st.g
-					} else if r := ex.solver.Check([]*Term{f.g}, nil); r.Status == "unsat" {
+					} else if r := ex.check([]*Term{f.g}, nil); r.Status == "unsat" {
 						f.g = ex.ts.Bool(false)
 						t.g = st.g
 					}
@@ -668,6 +727,38 @@ func (ex *Exec) execBlock(act *activation, b *ssa.BasicBlock, st *PState) {
 			fail("unsupported instruction %T", instr)
 		}
 	}
+}
+
+// lenientStep executes one non-control instruction of a package init, skipping it on an
+// executor error (used when the package's own types are abstracted, so that its limb-level
+// constant tables are irrelevant). Returns true if the instruction was handled.
+func (ex *Exec) lenientStep(act *activation, st *PState, instr ssa.Instruction, setEnv func(ssa.Value, Value)) (handled bool) {
+	defer func() {
+		if r := recover(); r != nil {
+			if _, ok := r.(execError); ok {
+				ex.note("lenient init: skipped instruction in " + act.fn.Pkg.Pkg.Path())
+				handled = true
+				return
+			}
+			panic(r)
+		}
+	}()
+	switch in := instr.(type) {
+	case *ssa.Store:
+		ex.store(st, ex.operand(st, in.Addr), ex.operand(st, in.Val))
+		return true
+	case ssa.Value:
+		if _, isPhi := in.(*ssa.Phi); isPhi {
+			return false
+		}
+		save := ex.lenientFn
+		ex.lenientFn = nil
+		defer func() { ex.lenientFn = save }()
+		v := ex.evalValue(act, st, in)
+		setEnv(in, v)
+		return true
+	}
+	return false
 }
 
 func (ex *Exec) operand(st *PState, v ssa.Value) Value {
@@ -780,7 +871,18 @@ func (ex *Exec) ensureInit(pkg *ssa.Package) {
 				o.ReadOnly = false
 			}
 		}
+		lenient := false
+		for pat := range ex.cfg.Abstract {
+			if strings.Contains(pat, ".") && strings.HasSuffix(pkg.Pkg.Path(), pat[:strings.LastIndex(pat, ".")]) {
+				lenient = true
+			}
+		}
+		saveL := ex.lenientFn
+		if lenient {
+			ex.lenientFn = initFn
+		}
 		ex.callFunction(st, initFn, nil, nil)
+		ex.lenientFn = saveL
 		if ro != "" {
 			ex.cfg.Opts["globals_readonly"] = ro
 			for _, o := range ex.globalObj {
@@ -891,17 +993,19 @@ func (ex *Exec) evalValue(act *activation, st *PState, v ssa.Value) Value {
 	case *ssa.Next:
 		return ex.rangeNext(st, in)
 	case *ssa.SliceToArrayPointer:
-		x := ex.operand(st, in.X).(*SliceV)
 		n := in.Type().(*types.Pointer).Elem().Underlying().(*types.Array).Len()
-		ex.panicObligation(st, ts.Lt(x.Len, ts.Int64(n)), "slice to array pointer: length too short")
-		if x.Obj == nil {
-			return &PtrV{}
-		}
-		arr := walk(ex.objValue(st, x.Obj), x.Path).(*ArrayV)
-		if x.Off.isZero() && int64(len(arr.E)) == n {
-			return &PtrV{Obj: x.Obj, Path: x.Path}
-		}
-		fail("SliceToArrayPointer with offset/len mismatch unsupported")
+		return ex.forAlts(ex.operand(st, in.X), func(g *Term, xv Value) Value {
+			x := xv.(*SliceV)
+			ex.panicObligation(st, ts.And(g, ts.Lt(x.Len, ts.Int64(n))), "slice to array pointer: length too short")
+			if x.Obj == nil {
+				return &PtrV{}
+			}
+			arr := walk(ex.objValue(st, x.Obj), x.Path).(*ArrayV)
+			if x.Off.isZero() && int64(len(arr.E)) == n {
+				return &PtrV{Obj: x.Obj, Path: x.Path}
+			}
+			return &PtrV{Obj: x.Obj, Path: x.Path, Sub: &SubArr{Off: x.Off, N: int(n)}}
+		})
 	}
 	fail("unsupported SSA value %T (%s)", v, v)
 	return nil
@@ -1097,7 +1201,7 @@ func (ex *Exec) valueEq(x, y Value) *Term {
 		}
 	case *PtrV:
 		if b, ok := y.(*PtrV); ok {
-			return ts.Bool(a.Obj == b.Obj && samePath(a.Path, b.Path))
+			return ts.Bool(a.Obj == b.Obj && samePath(a.Path, b.Path) && sameSub(a.Sub, b.Sub))
 		}
 	case *IfaceV:
 		b, ok := y.(*IfaceV)
